@@ -22,7 +22,7 @@ DECIDES = ("Decided: whether a declared type / explicit type argument is printed
            "brackets and quotes: on every decision-consistent path through every method of the four translators the "
            "string literals it evaluates (format templates parsed with string.Formatter, concatenations, f-strings, "
            "constants, same-module helpers) are balanced in (), {}, [], <> and double quotes, loop bodies / comprehension "
-           "elements / join separators each by themselves - so a translation is balanced by induction over the tree.")
+           "elements / join separators each by themselves - so a translation is balanced by induction over the tree. Also: the lists of a declaration (superclasses, interfaces, fields, ...) are rendered independently of each other (no join site guarded by the emptiness of another joined list); a rendered `<type> <name>` is taken apart at its last blank only; get_name of every type is balanced as well.")
 NOT_DECIDED = ("that the text is a correct rendering (literal values, keyword spelling, statement terminators, "
                "indentation, the order of fragments inside a template) - string building is value-level; bracket balance "
                "is decided for the literals of the translators, not for text that comes from names or type names.")
